@@ -277,10 +277,14 @@ def generate(rng, knobs=None):
                         sh = -int(rng.choice([2, 3, 4]))
                         if all(k_ + sh >= -max(st["max_lag"], 1) for k_ in g):
                             call["shift"] = sh
+                    if kind != "none" and rng.random() < 0.15:
+                        # the data for the plan are kept under a name of the user's choosing
+                        call["name_format"] = str(rng.choice(["{}_tune", "target_{}", "{}_" + kind + "_given"]))
                     plan.append(call)
     cells = S.resolve_plan(spec, plan, T)
     for (x, k), (kind, wd, *_) in cells.items():
-        sname = E.PLAN_PREFIX[kind] + x
+        fmt_ = _[1] if len(_) > 1 else None      # (kind, when_data, shift, name_format)
+        sname = fmt_.format(x) if fmt_ else E.PLAN_PREFIX[kind] + x
         kind_of_series[sname] = (kind, x)
         need.setdefault(sname, {})[k] = "maybe" if wd else "finite"
     if cells and rng.random() < 0.3:
@@ -396,7 +400,7 @@ def generate(rng, knobs=None):
         reorder = "sequentialize" if rng.random() < 0.4 else [int(v) for v in rng.permutation(n)]
     return {
         "kind": "gen", "mode": b.mode, "spec": spec, "source": source, "start": _start(rng), "T": T,
-        "data": data, "plan": plan, "opts": opts, "orders": orders, "reorder": reorder,
+        "data": data, "plan": plan, "opts": opts, "orders": orders, "reorder": reorder, "recalibrate": bool(parn and rng.random() < 0.2),
     }
 
 
